@@ -396,6 +396,12 @@ def module_literal(mi, name: str) -> Optional[Term]:
                     if isinstance(t, ast.Name):
                         counts[t.id] = counts.get(t.id, 0) + 1
                         cache[t.id] = node.value
+                    elif isinstance(t, ast.Tuple) and isinstance(node.value, ast.Tuple) and len(t.elts) == len(node.value.elts):
+                        # A, B = 0, 1
+                        for tn, tv in zip(t.elts, node.value.elts):
+                            if isinstance(tn, ast.Name):
+                                counts[tn.id] = counts.get(tn.id, 0) + 1
+                                cache[tn.id] = tv
         for k in list(cache):
             if counts.get(k, 0) != 1:
                 del cache[k]
@@ -1014,6 +1020,42 @@ class Walker:
                 for st in loop:
                     self.statement(st, env)
                 return None
+            # the same with the sum inside a larger expression: `x = sum(E for ...) / k`
+            inner = None
+            if not isinstance(s.value, ast.Call) or not (isinstance(s.value.func, ast.Name) and s.value.func.id == "sum"):
+                for n in ast.walk(s.value):
+                    if isinstance(n, ast.Call) and isinstance(n.func, ast.Name) and n.func.id == "sum" and n.args \
+                            and isinstance(n.args[0], (ast.GeneratorExp, ast.ListComp)) and "sum" not in env:
+                        inner = n
+                        break
+                    if isinstance(n, (ast.Lambda, ast.GeneratorExp, ast.ListComp, ast.SetComp, ast.DictComp, ast.IfExp, ast.BoolOp)):
+                        break  # (evaluation order / conditional evaluation: only the plain arithmetic case is rewritten)
+            if inner is not None:
+                self._cw_n = getattr(self, "_cw_n", 0) + 1
+                tmp = f"$v{self._cw_n}"
+                first = ast.copy_location(ast.Assign(targets=[ast.Name(id=tmp, ctx=ast.Store())], value=inner, lineno=s.lineno), s)
+                ast.fix_missing_locations(first)
+                loop = self._sum_loop(first)
+                if loop is not None:
+                    import copy as _copy
+
+                    class Sub(ast.NodeTransformer):
+                        def visit_Call(self, node):
+                            if node is inner:
+                                return ast.copy_location(ast.Name(id=tmp, ctx=ast.Load()), node)
+                            return self.generic_visit(node)
+                    rest = ast.copy_location(ast.Assign(targets=s.targets, value=Sub().visit(s.value), lineno=s.lineno), s)
+                    ast.fix_missing_locations(rest)
+                    for st in loop:
+                        self.statement(st, env)
+                    # (the original tree is restored: Sub rewrote it in place)
+                    r = self.statement(rest, env)
+
+                    class Back(ast.NodeTransformer):
+                        def visit_Name(self, node):
+                            return inner if node.id == tmp else node
+                    s.value = Back().visit(s.value)
+                    return r
         if isinstance(s, ast.Assign) and len(s.targets) == 1 and isinstance(s.targets[0], ast.Name) \
                 and isinstance(s.value, ast.BinOp) and type(s.value.op) in OPS:
             # `x = x op e` (and `x = e op x` for + and *) is the local-variable form of `x op= e`
@@ -1989,6 +2031,18 @@ class Walker:
                                 and not it[3]:
                             v = ("idx", it[2][path[0]], ("iterproj", it, lid, ("pos",)))
                         cenv[t.id] = v
+                    elif isinstance(t, (ast.Tuple, ast.List)) and cfused is not None and not path and not (
+                            it[0] == "call" and it[1] == ("builtin", "enumerate")):
+                        # the elements of a mapped list are unpacked: a, b, *rest = f(v)
+                        elemv = cfused[1](elem_of(it, lid))
+                        for i, x in enumerate(t.elts):
+                            if isinstance(x, ast.Starred) and i == len(t.elts) - 1 and isinstance(x.value, ast.Name):
+                                self._site += 1
+                                cenv[x.value.id] = ("alloc", "builtin.list", (("idx", elemv, ("slice", ("const", i) if i else None, None, None)),), (), self._site)
+                            elif isinstance(x, ast.Name):
+                                cenv[x.id] = ("idx", elemv, ("const", i))
+                            else:
+                                bind(x, path + [i])
                     elif isinstance(t, (ast.Tuple, ast.List)):
                         stars = [i for i, x in enumerate(t.elts) if isinstance(x, ast.Starred)]
                         for i, x in enumerate(t.elts):
